@@ -31,6 +31,9 @@ type DecodeResult struct {
 	maxBuffer int
 	skipClose bool
 	unsafe    bool
+	// released is set once the result has been returned to its pool, so that
+	// closing it again does not put the same object into the pool twice
+	released bool
 }
 
 // decode parses the data and adds it to the DecodeResult
@@ -127,6 +130,9 @@ func (r *DecodeResult) Close() error {
 
 // close will recursively close the nested DecodeResults and return them to their respective pools
 func (r *DecodeResult) close() {
+	if r.released {
+		return
+	}
 	for i := range r.flatData {
 		if r.flatData[i] == nil {
 			continue
@@ -150,6 +156,7 @@ func (r *DecodeResult) close() {
 				r.trunc(n)
 			}
 		}
+		r.released = true
 		r.pool.Put(r)
 	}
 }
